@@ -217,6 +217,13 @@ class Oracle:
                 else:
                     exp, why = self.window(nonce, nonce_ts(nonce), int(txt.decode(), 16))
             if exp is None:
+                # outside the property's domain (NUL byte in the presented nonce): not judged, but
+                # if the code accepted it the count is gone from that slot's window
+                if out == "ok" and self.n:
+                    cur = self.slots.get(self.idx(nonce))
+                    if cur is not None:
+                        cur["used"].add(int(op[2]) if k == "check" else int(op[3]) if k == "checkt"
+                                        else int(op[5], 16))
                 return None, why
             if exp == "not-ok":
                 return (None if out in ("stale", "wrong") else "non-registered nonce answered " + out), why
@@ -273,6 +280,12 @@ class Resolver:
     def hexof(self, s):
         return self.cache[s]
 
+    def real_hash(self, hexes):
+        out, rc, err = vlib.run_lines(self.h, ["hash " + x for x in hexes])
+        if rc != 0 or len(out) != len(hexes) or not all(o.startswith("hash ") for o in out):
+            raise vlib.BuildError("hash pre-query failed: " + err[-500:])
+        return [int(o.split()[1]) for o in out]
+
 
 def subst(seq, rs):
     """replace symbolic nonces in a planned sequence; `auth` gets its response computed"""
@@ -284,6 +297,8 @@ def subst(seq, rs):
                 o.append(rs.hexof(w))
             elif isinstance(w, tuple) and w[0] == "M":      # mutated nonce: ("M", sym, fn)
                 o.append(w[2](bytes.fromhex(rs.hexof(w[1]))).hex() or "-")
+            elif isinstance(w, tuple) and w[0] == "F":      # built from several: ("F", fn, sym...)
+                o.append(w[1](*[bytes.fromhex(rs.hexof(x)) for x in w[2:]]).hex() or "-")
             else:
                 o.append(str(w))
         if o[0] == "auth" and o[6] == "?":
@@ -300,6 +315,9 @@ def syms_of(seq):
                 yield w
             elif isinstance(w, tuple) and w[0] == "M":
                 yield w[1]
+            elif isinstance(w, tuple) and w[0] == "F":
+                for x in w[2:]:
+                    yield x
 
 
 def add_op(s):
@@ -412,6 +430,27 @@ def gen_random_seq(rng):
     return ops
 
 
+def gen_directed(rng):
+    """left-over bytes behind a short nonce in a slot that held a long one: presented
+    nonces that continue into the left-over (with and without the NUL), re-registration,
+    and the two orders of eviction"""
+    size = rng.choice([1, 1, 2])
+    t0 = rng.choice([1000, 777777, U48 - 10])
+    L = sym(t0, rng.choice([1, 2]), "%02x" % rng.randint(0, 40))           # 76 chars
+    S = sym((t0 + rng.choice([1, 40000, 100000])) % U64, 0, "%02x" % rng.randint(0, 40))   # 44 chars
+    alias0 = ("F", lambda s, l: s + b"\0" + l[45:], S, L)
+    aliasx = ("F", lambda s, l: s + b"x" + l[45:], S, L)
+    alias1 = ("F", lambda s, l: s + b"\0" + l[45:75] + b"0", S, L)
+    ops = [["table", size], ["clock", t0], add_op(L), ["check", L, 1], ["check", L, 2], ["clock", S[1]],
+           add_op(S), ["state"], ["check", S, 1]]
+    tail = [["check", alias0, 2], ["check", aliasx, 2], ["check", alias1, 2], ["check", L, 3], ["check", S, 2],
+            ["auth", 1, 0, 0, alias0, "00000003", "?"], ["auth", 1, 0, 0, aliasx, "00000003", "?"],
+            ["auth", 1, 0, 0, L, "00000004", "?"], ["checkt", alias0, 5, 4], add_op(S), add_op(L), ["check", L, 1],
+            ["check", S, 5], ["check", ("M", L, mut_trunc(32)), 1], ["check", ("M", S, mut_extend(32)), 1]]
+    rng.shuffle(tail)
+    return ops + tail + [["state"]]
+
+
 def gen_pure(rng, count):
     """pure-function probes: fast_simple_hash and get_nonce_timestamp"""
     ops = [["hash", "-"]] + [["hash", "%02x" % b] for b in range(256)]
@@ -507,7 +546,7 @@ def _worker(job):
     elif kind == "rnd":
         seed, count = args
         rng = random.Random(seed)
-        planned = [gen_random_seq(rng) for _ in range(count)]
+        planned = [gen_random_seq(rng) for _ in range(count)] + [gen_directed(rng) for _ in range(max(4, count // 20))]
         rs.resolve([x for s in planned for x in syms_of(s)])
     else:
         seed, count = args
@@ -532,10 +571,12 @@ def pick_triple(rs, size):
     cands = lambda ts, algo: [sym(ts, algo, "%02x" % i) for i in range(24)]
     ca, cb, cc = cands(1000, 0), cands(1005, 0), cands(31001, 1)
     rs.resolve(ca + cb + cc)
-    ix = lambda s: fsh(bytes.fromhex(rs.hexof(s))) % max(size, 1)
+    allc = ca + cb + cc
+    hv = dict(zip(allc, rs.real_hash([rs.hexof(s) for s in allc])))
+    ix = lambda s: hv[s] % max(size, 1)
     A = ca[0]
-    B = next(s for s in cb if size < 2 or ix(s) != ix(A))
-    C = next(s for s in cc if ix(s) == ix(A))
+    B = next((s for s in cb if size < 2 or ix(s) != ix(A)), cb[0])
+    C = next((s for s in cc if ix(s) == ix(A)), cc[0])
     return (A, B, C)
 
 
